@@ -11,6 +11,7 @@ import CdnsVerif.Driver.Mrg
 import CdnsVerif.Driver.Sch
 import CdnsVerif.Driver.Blk
 import CdnsVerif.Driver.Bld
+import CdnsVerif.Driver.Rdq
 open CdnsVerif.Driver
 
 def dispatch (line : String) : String :=
@@ -32,6 +33,7 @@ def dispatch (line : String) : String :=
   | "bld" :: rest => Bld.handle rest
   | "prj" :: rest => Bld.handlePrj rest
   | "prjd" :: rest => Bld.handlePrjd rest
+  | "rdq" :: rest => Rdq.handle rest
   | _ => "bad-request"
 
 partial def loop (h : IO.FS.Stream) (out : IO.FS.Stream) : IO Unit := do
